@@ -4,6 +4,7 @@ import (
 	"fmt"
 	"reflect"
 	"sync/atomic"
+	"unsafe"
 
 	"github.com/tencent/goom/arg"
 )
@@ -43,11 +44,13 @@ func (c *BaseMatcher) Result() []reflect.Value {
 	}
 
 	curNum := atomic.LoadInt32(&c.curNum)
+	verifHook("matcher.loaded", uintptr(unsafe.Pointer(c)), uintptr(curNum))
 	if length := len(c.results); curNum >= int32(length) {
 		return c.results[length-1]
 	}
 
 	atomic.AddInt32(&c.curNum, 1)
+	verifHook("matcher.added", uintptr(unsafe.Pointer(c)), uintptr(curNum))
 	return c.results[curNum]
 }
 
